@@ -38,6 +38,7 @@ def c04(rep, tier, seed):
             seen.add(k)
             evs.append(e)
     suite_types.validate(rep, evs, "c04.results", ("dtype_rule",))
+    suite_vec.forms(rep, ("form_dtype", "form_concat"))       # the promoted dtype does not depend on the container the new cells arrive in (one-shot iterables ...)
 
 
 JOIN_ASSUME = [
@@ -244,7 +245,7 @@ def c07(rep, tier, seed):
     suite_table.gen(rep, tier, ["select"], ("missing_column", "select_cols", "string_index", "commute"))
     suite_table.enumerated(rep, "struct", ("missing_column",))      # also names that are attributes of Table / Vector
     suite_vec.trace(rep, tier, seed, C07_CL, ops=("slice", "mask"))
-    suite_vec.forms(rep, ("form_index", "grid_read", "derived_independent", "form_compare_none"))      # incl. t[rows, cols] with every combination of key kinds against the plain grid
+    suite_vec.forms(rep, ("form_index", "grid_read", "derived_independent", "form_compare_none", "form_logic"))      # incl. t[rows, cols] with every combination of key kinds against the plain grid
     suite_misc.gen(rep, ["tcompare", "isinstance"], ("table_compare", "table_compare_dtype"))   # t == x ...: one <bool> column per column, None compares False
     suite_repo.validate(rep, {"getitem"}, ("getitem", "index_accepts", "index_rejects"))     # every v[key] the repository's own tests execute
     suite_heap.gen(rep, tier, "obsv2", ("obs_cmp",))
@@ -355,6 +356,7 @@ def c18(rep, tier, seed):
     suite_join.gen(rep, "quick", '{"inner","full"}', '{"many_to_many"}', cl)
     suite_sort.gen(rep, "quick", cl)
     suite_group.gen(rep, "quick", cl)
+    suite_vec.forms(rep, ("agg_names", "names"))        # promoting writes keep names (every write form); non-string column names in aggregate / window
     suite_heap.mc(rep, tier, ["names"], coverage=False)       # (the vacuity guard of this facet runs in C17)
     suite_heap.gen(rep, tier, "names", cl)
     suite_heap.gen(rep, tier, "obst3", ("obs_agg", "obs_names"))       # aggregate / window output names after rename histories
